@@ -28,8 +28,10 @@ cd /; git -C /repo worktree remove --force $W
 detected=no; out=""
 if [ $applies = yes ]; then
   git -C /repo apply $DST/patch.diff
+  cp /verif/evidence/$P.json /tmp/evidence-$P.bak 2>/dev/null
   out=$(cd /verif && ./bin/govc check --prop $P --tier quick 2>&1); rc=$?
   git -C /repo checkout -- .
+  cp /tmp/evidence-$P.bak /verif/evidence/$P.json 2>/dev/null; rm -f /tmp/evidence-$P.bak
   if [ $rc = 1 ] && echo "$out" | grep -q "^VIOLATION property=$P"; then detected=yes; fi
   echo "$out" | grep "obligation\|VIOLATION\|HARNESS\|^$P:" | head -12 > $DST/check_output.txt
 fi
